@@ -7,6 +7,14 @@ if hasattr(_sys, "set_int_max_str_digits"):
 import sys
 from fractions import Fraction
 
+
+def _flt(x):
+    """float() for messages: astronomically wrong results must not crash the oracle"""
+    try:
+        return float(x)
+    except OverflowError:
+        return float('inf')
+
 try:
     import mpmath
     from mpmath import mp, mpf
@@ -157,8 +165,8 @@ def check_parse(s, raw, out):
     fdig = len(fp) if fp else 0
     fval = int(fp) if fp else 0
     e = int(ex) if ex is not None else 0
-    if abs(e) > 5000:
-        return None
+    if abs(e) > 30000:
+        return None   # (only a cost limit of this oracle: the accuracy clause has no bound on the exponent, the no-panic clause stops at 5000)
     exact = (Fraction(ival) + Fraction(fval, 10 ** fdig)) * (Fraction(10) ** e)
     if v["cat"] == "X":
         return "finite literal parsed as NaN" if finite_parts(s, ival, fdig, e) else None
@@ -184,7 +192,7 @@ def check_parse(s, raw, out):
     u = ulp_of(v) if v["cat"] == "N" else ulp_of({"cat": "Z", "sem": s, "exp": 0})
     # ulp measured at the exact value's binade when the result is zero/subnormal
     err = abs(r - exact) / u
-    return None if err <= 6 else "error %.2f ulps > 6" % float(err)
+    return None if err <= 6 else "error %.2f ulps > 6" % _flt(err)
 
 
 def ulp_max(s):
@@ -234,7 +242,7 @@ def check_const(name, s, out):
         bound = 2 + s.P / 256.0
     else:
         bound = 1 if s.M in ("E", "A") else 2
-    return None if err <= bound else "%s error %.3g ulps > %s" % (name, float(err), bound)
+    return None if err <= bound else "%s error %.3g ulps > %s" % (name, _flt(err), bound)
 
 
 def _special_expect(name, x):
@@ -312,7 +320,7 @@ def check_fn(name, s, tok, out):
         if v["cat"] != "N":
             return "log of a positive finite number is not finite non-zero"
         err = ulp_err(v, t)
-        return None if err <= 2 else "log error %.3g ulps > 2" % float(err)
+        return None if err <= 2 else "log error %.3g ulps > 2" % _flt(err)
     if name in ("exp", "sigmoid"):
         if not nearest or not domain_ok(s) or abs(xv) > 1024:
             return None
@@ -328,7 +336,7 @@ def check_fn(name, s, tok, out):
         if v["cat"] != "N" or v["sign"]:
             return "result is not a positive finite value"
         err = ulp_err(v, t)
-        return None if err <= bound else "%s error %.3g ulps > %d" % (name, float(err), bound)
+        return None if err <= bound else "%s error %.3g ulps > %d" % (name, _flt(err), bound)
     if name in ("sin", "cos", "tan"):
         if not nearest or not domain_ok(s) or abs(xv) > 128:
             return None
@@ -345,11 +353,11 @@ def check_fn(name, s, tok, out):
             tol = max(u, mpf(2) ** (-(s.P + 6)))
             if abs(xv) < 1 and name == "sin":
                 tol = u  # full relative accuracy down to subnormal results
-            return None if abs(r - t) <= tol else "%s error %.3g ulps" % (name, float(abs(r - t) / u))
+            return None if abs(r - t) <= tol else "%s error %.3g ulps" % (name, _flt(abs(r - t) / u))
         if abs(t) > 64:
             return None
         err = ulp_err(v, t)
-        return None if err <= 2 else "tan error %.3g ulps > 2" % float(err)
+        return None if err <= 2 else "tan error %.3g ulps > 2" % _flt(err)
     return None
 
 
@@ -392,7 +400,7 @@ def check_powi(s, n, tok, out):
     bound = 1 + Fraction(n, 4)
     if n == 2 and s.M in ("E", "A"):
         bound = 1
-    return None if err <= bound else "powi(%d) error %.3g ulps > %s" % (n, float(err), bound)
+    return None if err <= bound else "powi(%d) error %.3g ulps > %s" % (n, _flt(err), bound)
 
 
 def check_pow(s, ta, tb, out):
@@ -426,7 +434,7 @@ def check_pow(s, ta, tb, out):
     if v["cat"] != "N" or v["sign"]:
         return "result is not a positive finite value"
     err = ulp_err(v, t)
-    return None if err <= 1 else "pow error %.3g ulps > 1" % float(err)
+    return None if err <= 1 else "pow error %.3g ulps > 1" % _flt(err)
 
 
 def check_frac(s, n, tok, out):
